@@ -68,6 +68,13 @@ def rule_ifc1(ctx: Ctx):
     fi = P.fn("semimdp.option.augment")
     cfg = cfg_of(fi)
     derived = [c for c in fi.local_classes.values() if c.dynamic_base or c.bases]
+    if not derived:
+        # (written after seed C15-e) the overrides are installed as CLASS attributes: the class must be created by this very call, otherwise two
+        # augmentations of the same base share (and overwrite) each other's overrides
+        ctx.violation("IFC-1", fi, fi.node, "the augmented class is derived afresh inside augment()",
+                      "augment() does not define its derived class locally (it comes from elsewhere, e.g. a cached factory): the overrides are class attributes, so "
+                      "every augmentation that shares the class sees the overrides of the last one")
+        return
     if len(derived) != 1:
         raise AnalysisError("augment(): expected exactly one locally derived class")
     D = derived[0]
@@ -512,19 +519,8 @@ def rule_semimdp(ctx: Ctx):
         ctx.check(ok, "SMDP-7", act, act.node, "options offered only where is_initial(s)", "", "options are offered regardless of their initiation set")
     # SMDP-8 (written after seeds C15-b / C15-d): a method whose result depends on instance configuration that can change after construction
     # (the seed, the number of simulations) is not memoised per argument tuple — a cached result would outlive a change of that configuration
-    C_ = ctx.P.cls("SemiMarkovDecisionProcess")
-    CACHES = ("method_cache", "lru_cache", "cache", "cached_property", "functools.lru_cache", "functools.cache", "functools.cached_property")
-    n8 = 0
-    for m_ in C_.methods.values():
-        reads = sorted({a_.attr for a_ in ast.walk(m_.node) if isinstance(a_, ast.Attribute) and isinstance(a_.value, ast.Name) and a_.value.id == m_.self_name
-                        and isinstance(a_.ctx, ast.Load) and a_.attr in ("seed", "n_option_simulations", "max_option_steps")})
-        draws = any(isinstance(c_, ast.Call) and ast.unparse(c_.func) in ("random.Random", "random.randint") for c_ in ast.walk(m_.node))
-        if not (reads or draws):
-            continue
-        n8 += 1
-        cached = [d_ for d_ in m_.decorators if d_.split("(")[0] in CACHES]
-        ctx.check(not cached, "SMDP-8", m_, m_.node, f"{m_.name}: depends on mutable configuration / draws samples and is not memoised", str(reads),
-                  f"`{m_.name}` is decorated with {cached}: its result depends on {reads or 'a generator'}, which can change after the first call, but the cache key is the argument tuple only")
+    from .common import cache_on_mutable_state_rule
+    cache_on_mutable_state_rule(ctx, [ctx.P.cls("SemiMarkovDecisionProcess")], "SMDP-8", extra_attrs=("seed", "n_option_simulations", "max_option_steps"))
     for r, k in (("SMDP-1", 1), ("SMDP-2", 2), ("SMDP-3", 2), ("SMDP-4", 4), ("SMDP-5", 3), ("SMDP-6", 3), ("SMDP-7", 1), ("SMDP-8", 1)):
         ctx.require(r, k)
 
